@@ -50,13 +50,13 @@ def prepare_mini(scratch, name, scratch_repo):
             if f.endswith((".rs", ".toml")):
                 p = os.path.join(root, f)
                 s = open(p).read()
-                if "@REPO@" in s or "@VERIF@" in s:
-                    open(p, "w").write(s.replace("@REPO@", scratch_repo).replace("@VERIF@", VERIF))
+                if "@REPO@" in s or "@VERIF@" in s or "@MINI@" in s:
+                    open(p, "w").write(s.replace("@REPO@", scratch_repo).replace("@VERIF@", VERIF).replace("@MINI@", dst))
     os.makedirs(os.path.join(dst, ".cargo"), exist_ok=True)
     with open(os.path.join(dst, ".cargo", "config.toml"), "w") as f:
         f.write("[net]\noffline = true\n")
     lock = os.path.join(src, "Cargo.lock")
-    if not os.path.exists(lock):
+    if not os.path.exists(lock) and "[dependencies]\n\n" not in open(os.path.join(src, "Cargo.toml")).read():
         shutil.copy(os.path.join(scratch_repo, "Cargo.lock"), os.path.join(dst, "Cargo.lock"))
     return dst
 
@@ -249,7 +249,16 @@ def run_harnesses(prop, crate_dir, specs, tier, target=None, jobs=6, where="incr
                 pb = concrete_playback(crate_dir, h, list(spec.get("flags", [])), spec.get("timeout", 600), target)
             except Exception as e:  # pragma: no cover
                 pb = None
-            if pb:
+            if pb and not pb["replay"]["failed_natively"]:
+                # the verifier's counterexample does not reproduce on the real code: verifier
+                # imprecision, not a verdict -> undecided, never an alarm
+                info["witness"] = pb
+                info["verdict"] = "counterexample-does-not-replay"
+                for o in obls:
+                    if o.status == FAILED and o.id.startswith("%s/K/%s#" % (prop, short)):
+                        o.status = UNDECIDED
+                        o.detail = "Kani counterexample did not replay natively (cargo kani playback passed): " + o.detail
+            elif pb:
                 info["witness"] = pb
                 for o in obls:
                     if o.status == FAILED and o.id.startswith("%s/K/%s#" % (prop, short)):
